@@ -444,6 +444,42 @@ def _():
 
         content = METADATA_BASE.format(""")
 
+@fix("D39", "fix: string constraints accept 'IN' / 'Not In' in any case and with any blank (was KeyError)")
+def _():
+    sub("constraints/generic/parser.py",
+        """        op = m.group("op")
+        value = m.group("value").strip()""",
+        """        # the pattern is case-insensitive and allows any blank between "not" and "in"
+        op = " ".join(m.group("op").lower().split())
+        value = m.group("value").strip()""")
+
+@fix("D21", "fix: Factory.validate reports non-table 'project' / 'tool' / 'tool.poetry' as errors instead of raising AttributeError")
+def _():
+    sub("factory.py",
+        """        tool_poetry = toml_data.setdefault("tool", {}).setdefault("poetry", {})
+        tool_poetry_validation_errors = [
+            e.replace("data.", "tool.poetry.")
+            for e in validate_object(tool_poetry, "poetry-schema")
+        ]
+        result["errors"] += tool_poetry_validation_errors
+""",
+        """        tool = toml_data.setdefault("tool", {})
+        if not isinstance(tool, dict):
+            result["errors"].append("tool must be object")
+            return result
+        tool_poetry = tool.setdefault("poetry", {})
+        tool_poetry_validation_errors = [
+            e.replace("data.", "tool.poetry.").replace("data ", "tool.poetry ")
+            for e in validate_object(tool_poetry, "poetry-schema")
+        ]
+        result["errors"] += tool_poetry_validation_errors
+        if result["errors"] and not (
+            isinstance(tool_poetry, dict) and isinstance(project or {}, dict)
+        ):
+            # the checks below require tables
+            return result
+""")
+
 def main():
     id_ = sys.argv[1]
     msg, f = FIXES[id_]
